@@ -305,11 +305,23 @@ def congruence(ctx: Any) -> List[Ob]:
     return obs
 
 
+@rule('C20.ONECOPY', 'N', expect_min=2)
+def onecopy(ctx: Any) -> List[Ob]:
+    """Identity is what keys the cache: every keyed store of records (Dict[DNSRecord, DNSRecord]) writes the record
+    under itself and drops an equal key first, so each index holds exactly one object per identity and a later copy
+    that differs only in TTL, creation time or flush bit replaces the earlier one in every index (the same
+    obligations as C05.KV, here for the clause `the same record - for the cache`)."""
+    from .c05 import kv_obligations
+
+    return kv_obligations(ctx, 'C20.ONECOPY')
+
+
 EXPLANATION = (
     'C20.CONGRUENCE (decided structurally): for DNSQuestion and each of the six record classes the set of fields '
     'compared by __eq__ (through _eq and _dns_entry_matches), the set of fields hashed into the stored _hash and the '
     "identity set the property states are extracted from the AST and must be equal; isinstance guards, __hash__, "
     'masking of the class field, lower-cased twins and construction-only writes of hashed fields are checked. '
-    'This decides the property for all pairs of records under assumption A1 (builtin hash/eq congruence).'
+    'This decides the property for all pairs of records under assumption A1 (builtin hash/eq congruence). '
+    'C20.ONECOPY (necessary): the cache indexes hold one object per identity (an equal key is dropped before the store).'
 )
-RULES = [congruence]
+RULES = [congruence, onecopy]
